@@ -15,12 +15,21 @@ import (
 	"github.com/vimeo/dials/zzverif"
 )
 
-func c16envgen(nfields int) {
+func c16envgen(nfields int) { c16envgenA(nfields, false) }
+
+func c16envgenA(nfields int, ptrAlphabet bool) {
 	shapes := make([]int, nfields)
 	for i := range shapes {
-		shapes[i] = zzverif.Choose("shape"+strconv.Itoa(i), zzverif.GenNumNamedShapes())
+		if ptrAlphabet {
+			shapes[i] = zzverif.Choose("shape"+strconv.Itoa(i), zzverif.GenNumPtrShapes())
+		} else {
+			shapes[i] = zzverif.Choose("shape"+strconv.Itoa(i), zzverif.GenNumNamedShapes())
+		}
 	}
 	gt, ok := zzverif.GenStructNamed(shapes)
+	if ptrAlphabet {
+		gt, ok = zzverif.GenStructPtr(shapes)
+	}
 	if !ok {
 		zzverif.Reached("c16-envgen-end")
 		return
@@ -100,4 +109,5 @@ func c16envgen(nfields int) {
 }
 
 func HarnessC16EnvGen2() { c16envgen(2) }
+func HarnessC16EnvPtrGen2() { c16envgenA(2, true) }
 func HarnessC16EnvGen3() { c16envgen(3) }
